@@ -76,8 +76,9 @@ ASSUMPTIONS = [
 
 # ---------------------------------------------------------------- alphabets
 T = 1.0 / 3.0
-STARTS = {"quick": [0.0, 0.5, T, 0.1, 10.0, -2.0]}
-STARTS["thorough"] = STARTS["quick"] + [0.001, -0.7, 3600.0]
+# 1e6: coordinates a million steps of 1.0 (1e9 steps of 1e-3) away from the origin, for tolerances that scale with the value
+STARTS = {"quick": [0.0, 0.5, T, 0.1, 10.0, -2.0, 1e6]}
+STARTS["thorough"] = STARTS["quick"] + [0.001, -0.7, 3600.0, 2e9]
 STEPS = {"quick": [1.0, 0.5, 0.3, 0.1, 0.01, T, 1 / 8000, 1 / 44100]}
 STEPS["thorough"] = STEPS["quick"] + [2.5, 0.05, 1 / 48000, 1 / 96000]
 NS = {"quick": [0, 1, 2, 3, 7, 10, 100, 1000, 4410]}
@@ -294,8 +295,10 @@ def run_range(case):
 
 
 # ---------------------------------------------------------------- index space
-def make_axis_array(coords, step, shape=None, dims=None):
-    return xr.DataArray(np.zeros(len(coords)), dims=["x"], coords={"x": xr.Variable("x", coords, attrs={"step": step})})
+def make_axis_array(coords, step, shape=None, dims=None, attrs=True):
+    # attrs=False: a plain numpy coordinate without a step attribute (the lookup must not depend on it)
+    return xr.DataArray(np.zeros(len(coords)), dims=["x"],
+                        coords={"x": xr.Variable("x", coords, attrs={"step": step} if attrs else {})})
 
 
 def index_queries(coords, step):
@@ -336,10 +339,11 @@ def run_index(case):
     out = Out(case)
     start, step, n = case["start"], case["step"], case["n"]
     coords = am.lattice_floats(start, step, n)
-    arr = make_axis_array(coords, step)
+    arrs = [make_axis_array(coords, step), make_axis_array(coords, step, attrs=False)]
     calls = 0
     bad = 0
     for zone, v in index_queries(coords, step):
+      for arr in arrs:
         for re_ in (True, False):
             obs = call_index(arr, "x", v, re_)
             calls += 1
